@@ -381,6 +381,16 @@ pub fn bfs_file(
         }
         for op in &ops {
             let mut c = states[head].0.clone();
+            if opt.check_results && fingerprint(&c) != fp_before {
+                file_violations += 1;
+                let path = path_to(&parents, head);
+                acc.violation(Violation {
+                    signature: format!("file={name};clone-differs;path={}", path.iter().map(Op::brief).collect::<Vec<_>>().join(",")),
+                    summary: format!("{prop}: file {name}: after [{}] a clone of the cursor is not in the state of its original", path.iter().map(Op::brief).collect::<Vec<_>>().join(", ")),
+                    case: json!({"kind": "cursor_history", "file": spec, "ops": path}),
+                });
+                break;
+            }
             stats.reset();
             let got = apply(&mut c, op);
             transitions += 1;
@@ -388,12 +398,25 @@ pub fn bfs_file(
             if loads > max_loads {
                 max_loads = loads;
             }
-            let (want, npos) = model_step(&model, pos, op);
+            let (want, mut npos) = model_step(&model, pos, op);
+            // a relative move issued after a None is unspecified (any outcome, even an error, is
+            // allowed) — but if it returns a stored entry, that operation "returned an entry" and
+            // establishes the logical position for what follows
+            let unspecified = want.is_none() && !matches!(op, Op::Reset);
+            if unspecified {
+                if let Ok(Some(Some((k, v)))) = &got {
+                    if let Some(i) = model.exact(k) {
+                        if &model.entries[i].1 == v {
+                            npos = Pos::At(i);
+                        }
+                    }
+                }
+            }
             let mut bad: Option<String> = None;
             let mut kind = op.kind();
             match &got {
                 Err(e) => {
-                    if opt.check_results {
+                    if opt.check_results && !unspecified {
                         bad = Some(format!("{} -> {e}", op.brief()));
                     }
                 }
@@ -499,7 +522,24 @@ pub fn replay_history(spec: &FileSpec, ops: &[Op], prop: &str) -> Result<String,
         }
         c = next;
         let loads = stats.abs_seeks.get();
-        let (want, npos) = model_step(&model, pos, op);
+        let (want, mut npos) = model_step(&model, pos, op);
+        let unspecified = want.is_none() && !matches!(op, Op::Reset);
+        if unspecified {
+            match &got {
+                Ok(Some(Some((k, v)))) => {
+                    if let Some(j) = model.exact(k) {
+                        if &model.entries[j].1 == v {
+                            npos = Pos::At(j);
+                        }
+                    }
+                }
+                Err(_) => {
+                    log.push_str(&format!("  step {i}: {} failed in an unspecified situation (allowed)\n", op.brief()));
+                    return Ok(log);
+                }
+                _ => {}
+            }
+        }
         let got = got.map_err(|e| format!("step {i} {}: {e}", op.brief()))?;
         if let (Some(w), Some(g)) = (&want, &got) {
             let w_obs: Obs = w.map(|i| (model.entries[i].0.clone(), model.entries[i].1.clone()));
